@@ -117,6 +117,9 @@ def c04(chk):
                        "quinn delivers close notifications / idle timeouts as QUIC specifies"]
     chk.add_mc(tlc_mc("MC_Conn.tla", "MC_Conn_quick.cfg" if quick(chk) else "MC_Conn_thorough.cfg",
                       workers=8 if quick(chk) else 14, timeout=300 if quick(chk) else 1800))
+    if not quick(chk):
+        # three networks, three dials in any directions, a disconnect: 12.3 M states
+        chk.add_mc(tlc_mc("MC_Conn.tla", "MC_Conn_3n.cfg", workers=12, timeout=3600))
     runs = 24 if quick(chk) else 600
     s1 = conn_histories(chk, "hist", seed=chk.seed, runs=runs, jobs=12, files=8, nodes=3, ops=40,
                         faults=1, restarts=1, known=1)
